@@ -96,6 +96,14 @@ def gen(rng, quick):
     for pos in (0, 1, 2):
         for dest in ("out", "outp"):
             cs.append(("dir-no-r@%d->%s" % (pos, dest), around("d1", pos) + [dest], True))
+    # ... the same operands under --dereference: what an operand IS for the validation is what the walk will make of it — a
+    # dangling link is a missing source, a link to a directory is a directory — wherever it stands among valid sources
+    for pos in (0, 1, 2):
+        cs.append(("dangling-L@%d" % pos, ["-L"] + around("dangling", pos) + ["out"], True))
+        cs.append(("dangling-rL@%d" % pos, ["-r", "-L"] + around("dangling", pos) + ["outp"], True))
+        cs.append(("dirlink-no-r-L@%d" % pos, ["-L"] + around("link_to_d1", pos) + ["out"], True))
+        cs.append(("loop-L@%d" % pos, ["-r", "-L"] + around("loop1", pos) + ["out"], True))
+    cs.append(("dirlink-no-r-L-single", ["-L", "link_to_d1", "newdest"], True))
     cs.append(("dir-no-r-single", ["d1", "newdest"], True))
     cs.append(("dirlink-no-r", ["link_to_d1", "newdest"], True))
     # 4. several sources, destination not a directory
@@ -177,6 +185,8 @@ def parse_args(args):
             o["rec"] = 1
         elif a == "-T":
             o["notd"] = 1
+        elif a in ("-L", "--dereference"):
+            pass            # the validation block does not depend on it (the model's `exists` follows links either way)
         elif a in ("-n", "--no-clobber"):
             o["nc"] = 1
         elif a in ("-f", "--force"):
@@ -261,7 +271,7 @@ def model_input(d, o, paths):
 def run(ctx, out):
     rng = ctx.rng
     quick = ctx.tier == "quick"
-    out.rule = ("every rejection class of the property (no source, missing source / pattern without match, directory without -r, "
+    out.rule = ("every rejection class of the property (no source, missing source / pattern without match, directory without -r (also through a link, with and without -L; dangling and looping link operands under -L), "
                 "several sources to a non-directory, directory onto an existing file (also inside the destination), source "
                 "identical to the mapped destination by spelling/alias/symlink/hard link, -n with -f, unknown option values, "
                 "malformed glob) x position of the offending argument among valid ones x destination state x both drivers, "
